@@ -24,7 +24,7 @@ import ast
 
 from .. import ctx
 from ..flow import yields_in
-from ..project import AnalysisError, call_name, kwarg, norm, walk_no_nested
+from ..project import AnalysisError, call_name, kwarg, norm, walk_no_nested, order
 from ..roles import CONSTRAINTS
 from . import c06
 from .c06 import DOCUMENTED, Ledger
@@ -122,32 +122,64 @@ def y2(run, lg):
         if len(handlers) != 1:
             continue
         h = handlers[0]
-        e = h.name
-        body = h.body
-        ok = len(body) >= 3 and isinstance(body[0], ast.If) and isinstance(body[0].test, ast.BoolOp) and isinstance(body[0].test.op, ast.Or)
-        mine = None
-        if ok:
-            vals = body[0].test.values
-            ok = len(vals) == 2 and norm(vals[0]) == "abort_on_error" and isinstance(vals[1], ast.Compare) and \
-                norm(vals[1].left) == f"{e}.constraint" and [norm(x) for x in body[0].body] == [f"raise {e}"]
-            if ok:
-                cmp_ = vals[1]
-                if isinstance(cmp_.ops[0], ast.NotEq):
-                    mine = [norm(cmp_.comparators[0])]
-                elif isinstance(cmp_.ops[0], ast.NotIn) and isinstance(cmp_.comparators[0], ast.Tuple):
-                    mine = [norm(x) for x in cmp_.comparators[0].elts]
-                else:
-                    ok = False
-        run.ob("Y2", ok and sorted(mine or []) == sorted(own), f"{w}: re-raises iff the overrun belongs to someone else's region",
-               f"ownership test is `{norm(body[0].test) if body and isinstance(body[0], ast.If) else None}`; this owner's regions are {own}: "
-               "an overrun of an own region is re-raised (aborts warn mode) or a foreign one is swallowed (decoding resumes at the "
-               "wrong place)", module=mod, node=h, func=w, construct=f"{w} ownership test")
-        rest = body[1:]
-        ok2 = len(rest) == 2 and isinstance(rest[0], ast.Expr) and isinstance(rest[0].value, ast.Yield) and \
-            norm(rest[0].value.value) == f"WarningEvent(error={e})" and isinstance(rest[1], ast.Return)
-        run.ob("Y2", ok2, f"{w}: recovery = warning, then return to the caller (resume at the region's end)",
-               "recovery path does not `yield WarningEvent(error=e)` and return", module=mod, node=h, func=w,
-               construct=f"{w} recovery path")
+        # decided on the summaries of the paths that enter the handler: re-raise iff strict or someone else's region;
+        # otherwise exactly one warning wrapping the caught error, then return to the caller
+        import re
+        from .. import paths
+
+        def all_paths(ps, out):
+            for p in ps:
+                out.append(p)
+                for sub in p.loops.values():
+                    all_paths(sub, out)
+            return out
+        rec = [p for p in all_paths(paths.Summariser(mod, fn).paths(), [])
+               if any(a.startswith("try@") and "SizeConstraintExceededError" in a and n_ is h for a, _v, n_ in p.cond)]
+        seen_keys, n_raise, n_recover = set(), 0, 0
+        for p in rec:
+            # only what happens from the handler on
+            i0 = next(i for i, (a, _v, n_) in enumerate(p.cond) if n_ is h)
+            conds = p.cond[i0 + 1:]
+            j0 = max((i for i, (k, _e, _n) in enumerate(p.effects) if k == "try-body"), default=-1)
+            fx = [(k, None if e is None else paths.text(e)) for k, e, _n in p.effects[j0 + 1:]]
+            key = (tuple((a, v) for a, v, _ in conds), tuple(fx), p.end)
+            if key in seen_keys:
+                continue
+            seen_keys.add(key)
+            lab = " & ".join(("" if v else "not ") + a for a, v, _ in conds) or "always"
+            strict = next((v for a, v, _ in conds if a == "truthy abort_on_error"), None)
+            mine, ev_ = None, h.name
+            for a, v, _ in conds:
+                m = re.fullmatch(r"(\w+)\.constraint (in|==) (.*)", a)
+                if m:
+                    ev_ = m.group(1)
+                    try:
+                        names = [norm(x) for x in ast.parse(m.group(3), mode="eval").body.elts] if m.group(2) == "in" else [m.group(3)]
+                    except Exception:
+                        names = [m.group(3)]
+                    mine = (names, v)
+            if p.end == "raise":
+                n_raise += 1
+                okr = p.value_text() == ev_ and (strict is True or (strict is False and mine is not None and mine[1] is False
+                                                                        and sorted(mine[0]) == sorted(own)))
+                run.ob("Y2", okr, f"{w}: re-raises iff the overrun belongs to someone else's region [{lab}]",
+                       f"ownership test on the path [{lab}] re-raises `{p.value_text()}`; this owner's regions are {own}: "
+                       "an overrun of an own region is re-raised (aborts warn mode) or a foreign one is swallowed (decoding resumes at the "
+                       "wrong place)", module=mod, node=p.node or h, func=w, construct=f"{w} ownership test")
+                continue
+            n_recover += 1
+            oko = strict is False and mine is not None and mine[1] is True and sorted(mine[0]) == sorted(own)
+            run.ob("Y2", oko, f"{w}: recovers only in warn mode and only from an overrun of its own regions [{lab}]",
+                   f"ownership test is [{lab}]; this owner's regions are {own}: "
+                   "an overrun of an own region is re-raised (aborts warn mode) or a foreign one is swallowed (decoding resumes at the "
+                   "wrong place)", module=mod, node=p.node or h, func=w, construct=f"{w} ownership test")
+            ok2 = fx == [("yield", f"WarningEvent(error={ev_})")] and p.end == "return"
+            run.ob("Y2", ok2, f"{w}: recovery = warning, then return to the caller (resume at the region's end)",
+                   f"recovery path does not `yield WarningEvent(error=e)` and return: it does {fx} and ends with `{p.end}`", module=mod,
+                   node=p.node or h, func=w, construct=f"{w} recovery path")
+        run.ob("Y2", n_raise >= 1 and n_recover >= 1, f"{w}: the handler both re-raises and recovers",
+               f"the recovery handler has {n_raise} re-raising and {n_recover} recovering paths", module=mod, node=h, func=w,
+               construct=f"{w} ownership test")
         # which decodes are protected
         tr = h._parent
         protected = {id(c) for st in tr.body for c in ast.walk(st) if isinstance(c, ast.Call) and call_name(c) == roles.dispatcher.name}
@@ -247,7 +279,7 @@ def y4(run, lg):
     run.ob("Y4", ok, "a shortfall skips exactly to the end the violated size field declares", "padding skip changed", module=cm,
            node=ad, func="SizeConstraint.assert_done", construct="padding skip amount")
     obs = [s for s in walk_no_nested(bp) if isinstance(s, ast.Assign) and norm(s.targets[0]) == "self.is_obsolete"]
-    run.ob("Y4", len(obs) == 1 and sk and obs[0].lineno < sk[0].lineno, "an overrun region is retired before its tail is skipped",
+    run.ob("Y4", len(obs) == 1 and sk and order(obs[0]) < order(sk[0]), "an overrun region is retired before its tail is skipped",
            "overrun does not retire the region", module=cm, node=bp, func="SizeConstraint.bytes_parsed", construct="overrun retires region")
 
 
